@@ -37,15 +37,17 @@ UNITS = {
     },
     "range_parse": {
         "preludes": ["shims/core.rs", "shims/fs.rs"],
-        "specs": ["contracts/spec/range.rs"],
+        "specs": ["contracts/spec/hv.rs", "contracts/spec/frames.rs", "contracts/spec/range.rs"],
         "sources": [
             SYMBOL_SRC,
-            ("src/response/mod.rs", ["struct:StatusCodeReasonPhrase", "struct:ResponseStatusCodeReasonPhrase",
+            ("src/header/mod.rs", ["struct:Header", "consts:Header"]),
+            ("src/response/mod.rs", ["struct:Response", "struct:StatusCodeReasonPhrase", "struct:ResponseStatusCodeReasonPhrase",
                                      "const:STATUS_CODE_REASON_PHRASE", "struct:Error"]),
+            ("src/mime_type/mod.rs", ["struct:MimeType", "consts:MimeType", "fn:MimeType::detect_mime_type:assume"]),
             ("src/range/mod.rs", ["struct:Range", "struct:ContentRange", "consts:Range",
                                   "fn:Range::parse_range_in_content_range", "fn:Range::parse_content_range"]),
         ],
-        "contracts": ["contracts/range.vc"],
+        "contracts": ["contracts/mime.vc", "contracts/range.vc"],
     },
     "response_gen": {
         "preludes": ["shims/core.rs", "shims/bytes.rs"],
@@ -140,7 +142,7 @@ UNITS = {
     },
     "static": {
         "preludes": ["shims/core.rs", "shims/bytes.rs", "shims/fs.rs"],
-        "specs": ["contracts/spec/hv.rs", "contracts/spec/lookup.rs", "contracts/spec/range.rs", "contracts/spec/static.rs"],
+        "specs": ["contracts/spec/hv.rs", "contracts/spec/lookup.rs", "contracts/spec/range.rs", "contracts/spec/frames.rs", "contracts/spec/static.rs"],
         "sources": [
             SYMBOL_SRC,
             ("src/header/mod.rs", ["struct:Header", "consts:Header"]),
@@ -148,6 +150,7 @@ UNITS = {
             ("src/response/mod.rs", ["struct:Response", "struct:StatusCodeReasonPhrase", "struct:ResponseStatusCodeReasonPhrase",
                                      "const:STATUS_CODE_REASON_PHRASE", "struct:Error"]),
             ("src/server/mod.rs", ["struct:ConnectionInfo", "struct:Address"]),
+            ("src/mime_type/mod.rs", ["struct:MimeType", "consts:MimeType", "fn:MimeType::detect_mime_type:assume"]),
             ("src/url/mod.rs", ["struct:URL", "fn:URL::parse:assume", "fn:URL::is_path_inside_root"]),
             ("src/range/mod.rs", ["struct:Range", "struct:ContentRange", "consts:Range", "fn:Range::parse_content_range:assume",
                                   "fn:Range::get_content_range", "fn:Range::get_content_range_list"]),
@@ -155,7 +158,60 @@ UNITS = {
                                   "fn:StaticResourceController::process", "fn:StaticResourceController::is_matching_request",
                                   "fn:StaticResourceController::process_request", "fn:StaticResourceController::process_static_resources"]),
         ],
-        "contracts": ["contracts/request.vc", "contracts/range.vc", "contracts/static.vc"],
+        "contracts": ["contracts/mime.vc", "contracts/request.vc", "contracts/range.vc", "contracts/static.vc"],
+    },
+    "app": {
+        "preludes": ["shims/core.rs", "shims/env.rs"],
+        "specs": ["contracts/spec/hv.rs", "contracts/spec/lookup.rs", "contracts/spec/cors.rs", "contracts/spec/headers.rs", "contracts/spec/frames.rs", "contracts/spec/app.rs"],
+        "sources": [
+            SYMBOL_SRC,
+            ("src/http/mod.rs", ["struct:Version", "const:VERSION"]),
+            ("src/range/mod.rs", ["struct:Range", "struct:ContentRange", "consts:Range"]),
+            ("src/request/mod.rs", ["struct:Request", "struct:Method", "const:METHOD"]),
+            ("src/entry_point/mod.rs", ["struct:Config", "consts:Config"]),
+            ("src/cors/mod.rs", ["struct:Cors", "consts:Cors"]),
+            ("src/client_hint/mod.rs", ["struct:ClientHint", "consts:ClientHint"]),
+            ("src/server/mod.rs", ["struct:ConnectionInfo", "struct:Address"]),
+            ("src/header/mod.rs", ["struct:Header", "consts:Header", "fn:Header::get_header_list:assume"]),
+            ("src/response/mod.rs", ["struct:Response", "struct:StatusCodeReasonPhrase", "struct:ResponseStatusCodeReasonPhrase",
+                                     "const:STATUS_CODE_REASON_PHRASE", "struct:Error", "fn:Response::get_response:assume"]),
+            ("src/app/controller/index/mod.rs", ['struct:IndexController', 'fn:IndexController::is_matching:assume', 'fn:IndexController::process:assume']),
+            ("src/app/controller/style/mod.rs", ['struct:StyleController', 'fn:StyleController::is_matching:assume', 'fn:StyleController::process:assume']),
+            ("src/app/controller/script/mod.rs", ['struct:ScriptController', 'fn:ScriptController::is_matching:assume', 'fn:ScriptController::process:assume']),
+            ("src/app/controller/favicon/mod.rs", ['struct:FaviconController', 'fn:FaviconController::is_matching:assume', 'fn:FaviconController::process:assume']),
+            ("src/app/controller/not_found/mod.rs", ['struct:NotFoundController', 'fn:NotFoundController::is_matching:assume', 'fn:NotFoundController::process:assume']),
+            ("src/app/controller/file/initiate/mod.rs", ['struct:FileUploadInitiateController', 'fn:FileUploadInitiateController::is_matching:assume', 'fn:FileUploadInitiateController::process:assume']),
+            ("src/app/controller/form/url_encoded_enctype_post_method/mod.rs", ['struct:FormUrlEncodedEnctypePostMethodController', 'fn:FormUrlEncodedEnctypePostMethodController::is_matching:assume', 'fn:FormUrlEncodedEnctypePostMethodController::process:assume']),
+            ("src/app/controller/form/get_method/mod.rs", ['struct:FormGetMethodController', 'fn:FormGetMethodController::is_matching:assume', 'fn:FormGetMethodController::process:assume']),
+            ("src/app/controller/form/multipart_enctype_post_method/mod.rs", ['struct:FormMultipartEnctypePostMethodController', 'fn:FormMultipartEnctypePostMethodController::is_matching:assume', 'fn:FormMultipartEnctypePostMethodController::process:assume']),
+            ("src/app/controller/static_resource/mod.rs", ['struct:StaticResourceController', 'fn:StaticResourceController::is_matching:assume', 'fn:StaticResourceController::process:assume']),
+            ("src/app/mod.rs", ["struct:App", "fn:App::execute"]),
+        ],
+        "contracts": ["contracts/header.vc", "contracts/server.vc", "contracts/static.vc", "contracts/app.vc"],
+    },
+    "controllers": {
+        "preludes": ["shims/core.rs", "shims/bytes.rs", "shims/env.rs", "shims/fs.rs"],
+        "specs": ["contracts/spec/hv.rs", "contracts/spec/lookup.rs", "contracts/spec/cors.rs", "contracts/spec/headers.rs", "contracts/spec/frames.rs", "contracts/spec/app.rs"],
+        "sources": [
+            SYMBOL_SRC,
+            ("src/http/mod.rs", ["struct:Version", "const:VERSION"]),
+            ("src/mime_type/mod.rs", ["struct:MimeType", "consts:MimeType", "fn:MimeType::detect_mime_type:assume"]),
+            ("src/range/mod.rs", ["struct:Range", "struct:ContentRange", "consts:Range", "fn:Range::get_content_range", "fn:Range::get_content_range_of_a_file"]),
+            ("src/request/mod.rs", ["struct:Request", "struct:Method", "const:METHOD"]),
+            ("src/entry_point/mod.rs", ["struct:Config", "consts:Config"]),
+            ("src/cors/mod.rs", ["struct:Cors", "consts:Cors"]),
+            ("src/client_hint/mod.rs", ["struct:ClientHint", "consts:ClientHint"]),
+            ("src/server/mod.rs", ["struct:ConnectionInfo", "struct:Address"]),
+            ("src/header/mod.rs", ["struct:Header", "consts:Header"]),
+            ("src/response/mod.rs", ["struct:Response", "struct:StatusCodeReasonPhrase", "struct:ResponseStatusCodeReasonPhrase",
+                                     "const:STATUS_CODE_REASON_PHRASE", "struct:Error"]),
+            ("src/app/controller/index/mod.rs", ['consts:IndexController', 'struct:IndexController', 'fn:IndexController::is_matching:verify', 'fn:IndexController::process:verify']),
+            ("src/app/controller/style/mod.rs", ['consts:StyleController', 'struct:StyleController', 'fn:StyleController::is_matching:verify', 'fn:StyleController::process:verify']),
+            ("src/app/controller/script/mod.rs", ['consts:ScriptController', 'struct:ScriptController', 'fn:ScriptController::is_matching:verify', 'fn:ScriptController::process:verify']),
+            ("src/app/controller/favicon/mod.rs", ['consts:FaviconController', 'struct:FaviconController', 'fn:FaviconController::is_matching:verify', 'fn:FaviconController::process:verify']),
+            ("src/app/controller/not_found/mod.rs", ['consts:NotFoundController', 'struct:NotFoundController', 'fn:NotFoundController::is_matching:verify', 'fn:NotFoundController::process:verify']),
+        ],
+        "contracts": ["contracts/mime.vc", "contracts/app.vc", "contracts/static.vc"],
     },
 }
 for k, v in UNITS.items():
@@ -178,6 +234,8 @@ def owner(unit, f):
         return "C04"
     if unit == "range_parse":
         return "C04" if f.kind in SAFETY_KINDS else "C03"
+    if f.kind == "precondition" and f.snippet.startswith("false@"):
+        return "C13"
     return None
 
 
@@ -190,7 +248,7 @@ def counts_for(pid):
 
 PROPS = {
     "C01": {
-        "units": ["static"],
+        "units": ["static", "controllers"],
         "level": "proof",
         "falsifier": ["e2e"],
         "case_prefixes": ["c01_"],
@@ -207,7 +265,7 @@ PROPS = {
         ],
     },
     "C13": {
-        "units": ["static"],
+        "units": ["static", "controllers"],
         "level": "other",
         "counts": counts_for("C13"),
         "explanation": "Effect precondition: every mutating function of file_ext (write_file, create_file, delete_file, read_or_create_and_write, create_directory, delete_directory, create_symlink, copy_file) is declared with `requires false`; Verus proves that none of the functions under contract (all StaticResourceController functions, Range::get_content_range_list) can call one. Adding such a call to any of them fails a named obligation. Functions on the request path that are NOT under contract (other controllers, Log) are not covered.",
@@ -240,7 +298,7 @@ PROPS = {
         "assumptions": ["the serialise-then-parse round trip itself is NOT proved (the two halves are proved against their specifications separately)"],
     },
     "C04": {
-        "units": ["server", "request_parse", "range_parse", "static"],
+        "units": ["server", "request_parse", "range_parse", "static", "app", "controllers"],
         "level": "proof",
         "falsifier": ["e2e"],
         "case_prefixes": ["c04_"],
@@ -250,7 +308,7 @@ PROPS = {
         "assumptions": ["stack depth of the per-header recursion in Request::cursor_read is not expressible (termination is proved, a stack bound is not)"],
     },
     "C10": {
-        "units": ["header_list", "cors", "server"],
+        "units": ["header_list", "cors", "server", "app", "controllers"],
         "level": "proof",
         "falsifier": ["e2e"],
         "case_prefixes": ["c10_"],
@@ -261,7 +319,7 @@ PROPS = {
         "assumptions": [],
     },
     "C05": {
-        "units": ["response_gen", "server", "header_list", "cors", "request_parse"],
+        "units": ["response_gen", "server", "header_list", "cors", "request_parse", "app", "controllers"],
         "level": "proof",
         "falsifier": ["response", "e2e"],
         "case_prefixes": ["c05_", "generate_response"],
